@@ -1087,10 +1087,10 @@ Lemma c19_freshshell_apply n0 h d vars a o :
   c19_pres n0 h (c19_apply h d o) /\ exists vars', c19_freshshell n0 (c19_apply h d o) d vars' a.
 Proof.
   intros FS Hn Ho. destruct o as [n data at'|n data|n data|n k x|n]; try discriminate.
-  - apply c19_freshshell_setvar; auto.
+  - apply (c19_freshshell_setvar n0 h d vars a n data at' FS Hn).
   - destruct (c19_freshshell_setdata n0 h d vars a n data FS Hn). split; eauto.
   - destruct (c19_freshshell_setattr n0 h d vars a n k x FS). split; eauto.
-  - apply c19_freshshell_delvar; auto.
+  - apply (c19_freshshell_delvar n0 h d vars a n FS).
 Qed.
 
 Lemma c19_freshshell_run n0 : forall ops h d vars a,
